@@ -3,12 +3,14 @@ package transport
 // Shared E3 helpers for the transport harnesses (C05, C06, C14, C16, C18, C20).
 
 import (
-	"runtime/debug"
 	"context"
+	"encoding/base64"
 	"fmt"
 	"os"
 	"reflect"
+	"runtime/debug"
 	"strings"
+	"sync"
 	"testing"
 	"testing/synctest"
 	"time"
@@ -70,29 +72,41 @@ func (c *call) start(tr exchanger, timeout time.Duration) {
 	c.ctx, c.cancel = context.WithDeadline(context.Background(), c.deadline)
 	q := append([]byte(nil), c.wire...)
 	go func() {
+		var (
+			res      *refdns.Msg
+			raw      []byte
+			nilnil   bool
+			panicked any
+			xerr     error
+		)
 		defer func() {
 			if r := recover(); r != nil {
-				c.panicked = r
-				c.done, c.doneAt = true, time.Now()
+				panicked = r
 			}
+			publish(func() {
+				c.err, c.nilnil, c.resp, c.respRaw = xerr, nilnil, res, raw
+				if panicked != nil {
+					c.panicked = panicked
+				}
+				c.done, c.doneAt = true, time.Now()
+			})
 		}()
 		m, err := tr.ExchangeContext(c.ctx, q)
-		c.err = err
+		xerr = err
 		if m == nil && err == nil {
-			c.nilnil = true
+			nilnil = true
 		}
 		if m != nil {
 			b := make([]byte, m.Len())
 			if n, perr := m.Pack(b, false, 0); perr == nil {
-				c.respRaw = b[:n]
-				c.resp, _ = refdns.Decode(b[:n])
+				raw = b[:n]
+				res, _ = refdns.Decode(b[:n])
 			}
 			dnsmsg.ReleaseMsg(m)
 		}
 		if string(q) != string(c.wire) {
-			c.panicked = "ExchangeContext modified the caller's query buffer"
+			panicked = "ExchangeContext modified the caller's query buffer"
 		}
-		c.done, c.doneAt = true, time.Now()
 	}()
 }
 
@@ -182,14 +196,12 @@ func bubble(t *testing.T, f func()) {
 	})
 }
 
-func wait() { synctest.Wait() }
-
 // sleepUntil advances the virtual clock to t (no-op if t is not in the future) and waits for quiescence.
 func sleepUntil(t time.Time) {
 	if d := time.Until(t); d > 0 {
-		time.Sleep(d)
+		hsleep(d)
 	}
-	synctest.Wait()
+	wait()
 }
 
 // poolConns reaches into connpool.Pool to list the live *pipelineConn objects (for the id fast-forward).
@@ -215,7 +227,10 @@ func runExplore(t *testing.T, rep *report.R, bound int, scenario func(c *choice.
 	if rp := report.ReplayFile(); rp != nil {
 		var x struct{ Choices []int }
 		rp.Decode(&x)
-		c := choice.Replay(x.Choices, true, func(c *choice.Ctx) bool { bubble(t, func() { scenario(c) }); return true })
+		c := choice.Replay(x.Choices, true, func(c *choice.Ctx) bool {
+			bubble(t, func() { hmu.Lock(); defer hmu.Unlock(); scenario(c) })
+			return true
+		})
 		rep.Note("replayed: " + strings.Join(c.Trace(), " "))
 		return choice.Stats{Executions: 1}
 	}
@@ -225,8 +240,10 @@ func runExplore(t *testing.T, rep *report.R, bound int, scenario func(c *choice.
 	bubble(t, func() {
 		st = choice.Explore(opt, func(c *choice.Ctx) bool {
 			report.SetCurrent(c)
+			hmu.Lock()
+			defer hmu.Unlock()
 			scenario(c)
-			synctest.Wait()
+			wait()
 			return rep.NViolations() < 50
 		})
 	})
@@ -240,7 +257,6 @@ func runExplore(t *testing.T, rep *report.R, bound int, scenario func(c *choice.
 	rep.Count("max_depth", int64(st.MaxDepth))
 	return st
 }
-
 
 // abandon tears an execution down when it is given up half-way (its subtree belongs to another worker):
 // nothing may stay blocked in the worker's bubble.
@@ -257,11 +273,37 @@ func abandon(tr interface{ Close() error }, d *env.Dialer, calls *[]*call) {
 		d.ImplEnd(i).Commit()
 	}
 	go tr.Close()
-	synctest.Wait()
+	wait()
 	for i := 0; i < d.NumConns(); i++ {
 		d.ImplEnd(i).Abort()
 		d.Conn(i).Abort()
 	}
-	time.Sleep(70 * time.Second)
-	synctest.Wait()
+	hsleep(70 * time.Second)
+	wait()
 }
+
+// hmu orders the harness goroutine and the goroutines it observes for the race detector: the harness holds it
+// whenever it runs and releases it only while it waits for quiescence or lets virtual time pass; goroutines
+// that publish results for the harness take it while doing so.
+var hmu sync.Mutex
+
+func wait() {
+	hmu.Unlock()
+	synctest.Wait()
+	hmu.Lock()
+}
+
+func hsleep(d time.Duration) {
+	hmu.Unlock()
+	time.Sleep(d)
+	hmu.Lock()
+}
+
+// publish runs f (which stores results read by the harness) under hmu.
+func publish(f func()) {
+	hmu.Lock()
+	f()
+	hmu.Unlock()
+}
+
+func b64(s string) ([]byte, error) { return base64.RawURLEncoding.DecodeString(s) }
